@@ -32,6 +32,7 @@ type Analysis struct {
 	Parts    []*Part
 	PartOf   map[*Submission]*Part
 	ReqByID  map[int]*Request
+	keys     []string // sorted keys of ByMarker (built on demand)
 }
 
 func key(table, marker string) string { return table + "|" + marker }
@@ -149,15 +150,7 @@ func (a *Analysis) Find(e Expect, tick int64) *Occ {
 	if !e.Prefix {
 		return match(a.ByMarker[key(e.Table, e.Marker)])
 	}
-	pre := key(e.Table, e.Marker)
-	for k, occs := range a.ByMarker {
-		if strings.HasPrefix(k, pre) {
-			if o := match(occs); o != nil {
-				return o
-			}
-		}
-	}
-	return nil
+	return match(a.FindAll(e))
 }
 
 // Chunked tells, per HTTP request id, how many insert requests (parts) the parser cut the
@@ -186,4 +179,25 @@ func (a *Analysis) Chunked() (parts map[int]int, retried map[int]bool) {
 		}
 	}
 	return
+}
+
+// FindAll returns every occurrence (in any block, whatever its outcome) of the row an
+// expectation describes.
+func (a *Analysis) FindAll(e Expect) []Occ {
+	if !e.Prefix {
+		return a.ByMarker[key(e.Table, e.Marker)]
+	}
+	if a.keys == nil {
+		a.keys = make([]string, 0, len(a.ByMarker))
+		for k := range a.ByMarker {
+			a.keys = append(a.keys, k)
+		}
+		sort.Strings(a.keys)
+	}
+	pre := key(e.Table, e.Marker)
+	var out []Occ
+	for i := sort.SearchStrings(a.keys, pre); i < len(a.keys) && strings.HasPrefix(a.keys[i], pre); i++ {
+		out = append(out, a.ByMarker[a.keys[i]]...)
+	}
+	return out
 }
